@@ -11,8 +11,8 @@ Open Scope N_scope.
 (** strings.Split(s, sep) for a one-byte separator: always at least one part *)
 Fixpoint split_aux (sep : N) (s : bytes) (cur : bytes) : list bytes :=
   match s with
-  | [] => [rev cur]
-  | c :: t => if c =? sep then rev cur :: split_aux sep t [] else split_aux sep t (c :: cur)
+  | [] => [frev cur]
+  | c :: t => if c =? sep then frev cur :: split_aux sep t [] else split_aux sep t (c :: cur)
   end.
 Definition split (sep : N) (s : bytes) : list bytes := split_aux sep s [].
 
